@@ -335,7 +335,7 @@ def suite_usm(out, tier, seed):
             out.case((hashname,) + tuple(map(str, mode)))
             state["mode"] = mode
             c = Client("127.0.0.1", creds, sender=mitm)
-            signal.alarm(2)
+            arm(2)
             try:
                 got = run(c.get(OID("1.3.6.1.2.1.1.5.0")))
                 ok = type(got) is type(authentic) and got.value == authentic.value
@@ -345,7 +345,7 @@ def suite_usm(out, tier, seed):
             except Exception as e:  # noqa
                 ok, obs = True, "exception %s" % type(e).__name__
             finally:
-                signal.alarm(0)
+                disarm()
             if not ok:
                 out.fail({"kind": "forgery", "hash": hashname, "mode": [str(m) for m in mode]}, obs,
                          "an exception or exactly " + describe(authentic))
@@ -375,7 +375,9 @@ def suite_usm(out, tier, seed):
                 return [(str(vb.oid), vb.value.value) async for vb in c.walk(OID("1.3.6.1.2.1.1"), errors="warn" if lenient else "strict")]
             out.case((hashname, "walk", "lenient" if lenient else "strict") + tuple(map(str, mode or ("clean",))))
             c = Client("127.0.0.1", creds, sender=wmitm)
-            signal.alarm(3)
+            if mode is not None and full is None:
+                continue          # (the clean walk itself failed and was reported: nothing to compare with)
+            arm(3 if mode is not None else 20)
             try:
                 got = run(walk_all(c))
                 if mode is None:
@@ -386,8 +388,10 @@ def suite_usm(out, tier, seed):
             except Exception as e:  # noqa
                 ok, obs = True, "exception %s" % type(e).__name__
             finally:
-                signal.alarm(0)
-            if not ok:
+                disarm()
+            if mode is None and full is None:
+                out.fail({"kind": "forgery-in-walk", "hash": hashname, "mode": ["none (the clean walk itself)"]}, obs, "the walk of the five instances")
+            elif not ok:
                 out.fail({"kind": "forgery-in-walk", "hash": hashname, "mode": [str(m) for m in mode]}, obs,
                          "an exception or the complete walk (%d instances)" % len(full))
         # ---- LARGE: long messages, repeated request ids, many requests in flight (state kept per message prefix, per request
@@ -418,7 +422,7 @@ def suite_usm(out, tier, seed):
             for pos in (n1 - 1, n1 - 17, n1 - 300, 300, 257):
                 lstate["alter"] = pos
                 out.case((hashname, "replayed-long-answer-altered-at", pos))
-                signal.alarm(2)
+                arm(2)
                 try:
                     got = run(c.get(OID("1.3.6.1.2.1.1.5.0")))
                     ok, obs = got.value == long_authentic.value, "a value altered at octet %d of %d was returned" % (pos, n1)
@@ -427,7 +431,7 @@ def suite_usm(out, tier, seed):
                 except Exception as e:  # noqa
                     ok, obs = True, "exception %s" % type(e).__name__
                 finally:
-                    signal.alarm(0)
+                    disarm()
                 if not ok:
                     out.fail({"kind": "forgery-long-replay", "hash": hashname, "altered_octet": pos, "message_octets": n1}, obs,
                              "an exception or exactly the authentic value")
@@ -450,13 +454,13 @@ def suite_usm(out, tier, seed):
                 cnt["n"] = 0
                 return await asyncio.gather(*[c.get(OID("1.3.6.1.2.1.1.5.0")) for _ in range(inflight)], return_exceptions=True)
             out.case((hashname, "in-flight", inflight))
-            signal.alarm(5)
+            arm(5)
             try:
                 res = run(batch(Client("127.0.0.1", creds, sender=cmitm)))
             except TimeoutError:
                 res = []
             finally:
-                signal.alarm(0)
+                disarm()
             bad = [describe(r) for r in res if not isinstance(r, Exception) and r.value != authentic.value]
             if bad:
                 out.fail({"kind": "forgery-in-flight", "hash": hashname, "requests_in_flight": inflight}, bad[0],
@@ -503,6 +507,18 @@ def forge(reply, mode, ag):
 
 def _alarm(signum, frame):
     raise TimeoutError("alarm")
+
+
+def arm(cpu_seconds):
+    """A budget for the code that follows, independent of the load of the machine: `cpu_seconds` of PROCESS CPU time (a spinning
+    hang), and a generous wall-clock bound for a hang that blocks without using the CPU (a leaked semaphore, a lost wake-up)."""
+    signal.setitimer(signal.ITIMER_PROF, cpu_seconds)
+    signal.alarm(max(30, 10 * cpu_seconds))
+
+
+def disarm():
+    signal.setitimer(signal.ITIMER_PROF, 0)
+    signal.alarm(0)
 
 
 SUITES = {"walks": suite_walks, "walks-getnext": lambda o, t, s: suite_walks(o, t, s, "getnext"),
@@ -563,6 +579,7 @@ REPLAY = {"walk": replay_walk, "pycall": replay_pycall, "err": replay_err}
 
 def main(argv):
     signal.signal(signal.SIGALRM, _alarm)
+    signal.signal(signal.SIGPROF, _alarm)
     try:
         resource.setrlimit(resource.RLIMIT_AS, (3 * 2 ** 30, 3 * 2 ** 30))
     except Exception:
@@ -971,7 +988,7 @@ def suite_malformed(out, tier, seed):
             scen = {"kind": "malformed", "config": cfg, "auth": bool(auth), "mutation": kind, "where": where, "datagram": mutated.hex()}
             indefinite = d15_pattern(mutated)
             t0 = time.process_time()
-            signal.alarm(2)
+            arm(2)
             try:
                 try:
                     run(c.get(OID("1.3.1.1.0")))
@@ -985,11 +1002,11 @@ def suite_malformed(out, tier, seed):
                 except Exception:
                     pass
             finally:
-                signal.alarm(0)
+                disarm()
             if time.process_time() - t0 > 1.0:
                 out.fail(scen, "%.1f s CPU" % (time.process_time() - t0), "time bounded by a small multiple of the datagram size")
             # the same client must be usable for the next (valid) request
-            signal.alarm(2)
+            arm(2)
             try:
                 got = run(c.get(OID("1.3.1.2.0")))
                 if got.value != 2:
@@ -999,7 +1016,7 @@ def suite_malformed(out, tier, seed):
             except Exception as e:  # noqa
                 out.fail(scen, "follow-up request failed: %s: %s" % (type(e).__name__, e), "the client is usable for the next request")
             finally:
-                signal.alarm(0)
+                disarm()
 
 
         # ---- LARGE: a run of bad datagrams on ONE client (a resource taken per exchange and given back only on success runs
@@ -1022,7 +1039,7 @@ def suite_malformed(out, tier, seed):
             hung = False
             for _i in range(nbad):
                 nxt = state["left"][-1] if state["left"] else b""
-                signal.alarm(2)
+                arm(2)
                 try:
                     run(c.get(OID("1.3.1.1.0")))
                 except TimeoutError:
@@ -1033,11 +1050,11 @@ def suite_malformed(out, tier, seed):
                 except Exception:
                     pass
                 finally:
-                    signal.alarm(0)
+                    disarm()
             if hung:
                 continue
             state["left"] = []
-            signal.alarm(3)
+            arm(3)
             try:
                 got = run(c.get(OID("1.3.1.2.0")))
                 if got.value != 2:
@@ -1048,7 +1065,7 @@ def suite_malformed(out, tier, seed):
                 out.fail(scen, "the request after %d refused datagrams failed: %s: %s" % (nbad, type(e).__name__, e),
                          "the client is usable for the next request")
             finally:
-                signal.alarm(0)
+                disarm()
     # ---- LARGE: valid datagrams with many bindings: time stays proportional to the size
     for nvb in (50, 400, 1500):
         bigdb = [((1, 3, 7, i), ("int", ber.INT, i)) for i in range(1, nvb + 1)]
@@ -1056,7 +1073,7 @@ def suite_malformed(out, tier, seed):
         c = Client("127.0.0.1", V2C("public"), sender=ag)
         out.case(("many-bindings", nvb))
         t0 = time.process_time()
-        signal.alarm(6)
+        arm(6)
         try:
             res = run(c.multiget([OID(otext(o)) for o, _ in bigdb]))
             cpu = time.process_time() - t0
@@ -1069,7 +1086,7 @@ def suite_malformed(out, tier, seed):
         except Exception as e:  # noqa
             out.fail({"kind": "many-bindings", "bindings": nvb}, "%s: %s" % (type(e).__name__, e), "the agent's values")
         finally:
-            signal.alarm(0)
+            disarm()
 
 
 SUITES["malformed"] = suite_malformed
@@ -1168,7 +1185,7 @@ def suite_faulty(out, tier, seed):
                     return [vb async for vb in c.multiwalk([OID("1.3.9")], fetcher=fetcher, errors=errors)]
                 out.case(("backwards", hi, bulk, errors))
                 scen = {"kind": "faulty-walk-backwards", "first_instance_arc": hi, "bulk": bulk, "errors": errors}
-                signal.alarm(5)
+                arm(5)
                 try:
                     run(go2())
                     exc = None
@@ -1178,7 +1195,7 @@ def suite_faulty(out, tier, seed):
                 except Exception as e:  # noqa
                     exc = e
                 finally:
-                    signal.alarm(0)
+                    disarm()
                 # the answer to the second request does not advance beyond the OID the walk continued from (within one GETBULK
                 # column only the OID the walk would continue from is compared: DESIGN 0.8)
                 limit = 2
@@ -1710,7 +1727,7 @@ def suite_tables(out, tier, seed):
             ag = agent.CommunityAgent(db)
             c = Client("127.0.0.1", V2C("public"), sender=ag)
             out.case(("large-table", ncol, nrow, bulk))
-            signal.alarm(60)
+            arm(60)
             try:
                 rows = run(c.bulktable(OID(otext(table)), bulk_size=bulk)) if bulk else run(c.table(OID(otext(entry))))
                 got = {r["0"]: {k: (v if k == "0" else v.value) for k, v in r.items()} for r in rows}
@@ -1721,7 +1738,7 @@ def suite_tables(out, tier, seed):
             except Exception as e:  # noqa
                 ok, obs = False, repr(e)
             finally:
-                signal.alarm(0)
+                disarm()
             if not ok:
                 out.fail({"kind": "large-table", "columns": ncol, "rows": nrow, "bulk": bulk}, obs, "%d rows, %d cells" % (nrow, ncol * nrow))
 
@@ -1880,14 +1897,14 @@ def suite_trap(out, tier, seed):
             except Exception:
                 pass        # the event loop logs exceptions of protocol callbacks
             await asyncio.sleep(0)
-        signal.alarm(2)
+        arm(2)
         try:
             loop.run_until_complete(inject())
         except TimeoutError:
-            signal.alarm(0)
+            disarm()
             continue        # x690 hang on a garbage datagram: finding D15 (C20)
         finally:
-            signal.alarm(0)
+            disarm()
         new = got[before:]
         scen = {"kind": "trap", "sequence": list(seq), "datagram": data.hex()}
         if kind == "valid":
